@@ -388,9 +388,6 @@ func (vc *FnVC) srcElems(st *State, v ssa.Value, x *Val) (n string, at func(k st
 	if !isSl {
 		return "", nil, false
 	}
-	if as, found := vc.arrSlices[x.S]; found {
-		return sx("s.len", x.S), func(k string) string { return sx("select", as.arr, sx("+", as.lo, k)) }, true
-	}
 	mk := vc.memKey(sl.Elem())
 	if mk == nil {
 		return "", nil, false
